@@ -24,6 +24,9 @@ mod c02;
 mod tables;
 mod lexcases;
 mod c20;
+mod c07;
+mod c08;
+mod c06;
 
 fn main() {
     util::silence_panics();
@@ -91,6 +94,9 @@ fn main() {
                 "C01" => c01::run(&params),
                 "C02" => c02::run(&params),
                 "C20" => c20::run(&params),
+                "C06" => c06::run(&params),
+                "C07" => c07::run(&params),
+                "C08" => c08::run(&params),
                 _ => { eprintln!("unknown property {}", id); std::process::exit(2); }
             };
             // the witnesses of this property run as part of every check (regression corpus)
